@@ -61,6 +61,9 @@ pub fn check_one<L: Tab>(n: usize, fs: &[TT], meta: bool) -> Result<usize, (Stri
 }
 
 pub fn replay(case: &Case) -> Result<Verdict, String> {
+    if case.opt("kind") == Some("tour") {
+        return super::xsize::replay(case, &tour);
+    }
     let st = parse_ty(case.get("ty")?)?;
     let n = case.usize("n")?;
     let mut fs = Vec::new();
@@ -205,6 +208,79 @@ fn word_sequences<L: Tab>(run: &Run, st: bool, n: usize) {
     });
 }
 
+// ------------------------------------------------------------------------------ histories
+
+fn check_ty(st: bool, n: usize, fs: &[TT]) -> Verdict {
+    fn go<L: Tab>(n: usize, fs: &[TT]) -> Verdict {
+        check_one::<L>(n, fs, false).map(|_| ())
+    }
+    for_type!(st, n, go(n, fs))
+}
+
+fn tour_sizes(thorough: bool) -> Vec<usize> {
+    (0..=if thorough { 11 } else { 10 }).collect()
+}
+
+const WORDS_PER_TOUR: usize = 32;
+
+/// "sizes": per size a batch of lists, every ordered pair of sizes consecutively;
+/// "words": the same table words as lists of tables of consecutive sizes.
+pub fn tour(which: &str, k: usize, thorough: bool) -> Result<super::xsize::Tour, String> {
+    let mut t = super::xsize::Tour::new(format!("{}:{}", which, k));
+    match which {
+        "sizes" => {
+            let sizes = tour_sizes(thorough);
+            let a = *sizes.get(k).ok_or("no such tour")?;
+            for s in super::xsize::size_pairs_from(a, &sizes) {
+                let mut fam: Vec<TT> = alpha::named(s).into_iter().take(4).collect();
+                let pats = alpha::word_patterns(s, 0, 0);
+                fam.push(pats[pats.len() - 1].clone());
+                let mut lists: Vec<Vec<TT>> = vec![Vec::new()];
+                for (i, f) in fam.iter().enumerate() {
+                    lists.push(vec![f.clone()]);
+                    let g = &fam[(i + 1) % fam.len()];
+                    lists.push(vec![f.clone(), g.clone()]);
+                    lists.push(vec![g.clone(), f.not(), TT::pointwise(f, g, |x, y| x != y), f.clone()]);
+                }
+                for fs in lists {
+                    for st in [false, true] {
+                        let fs2 = fs.clone();
+                        t.push(format!("{} n={} list of {} [{}]", if st { "LutN" } else { "Lut" }, s, fs2.len(), fs2.iter().map(|f| fmt_words(&f.w)).collect::<Vec<_>>().join(",")), move || check_ty(st, s, &fs2));
+                    }
+                }
+            }
+        }
+        "words" => {
+            let chunk: Vec<u64> = (0..256u64).skip(k * WORDS_PER_TOUR).take(WORDS_PER_TOUR).collect();
+            if chunk.is_empty() {
+                return Err("no such tour".into());
+            }
+            for w in chunk {
+                let sizes: Vec<usize> = (0..=8usize).filter(|n| *n >= 6 || w >> nbits(*n) == 0).collect();
+                for st in [false, true] {
+                    for s in super::xsize::size_pairs(&sizes) {
+                        let mk1 = |x: u64| {
+                            let mut words = vec![0u64; crate::model::tt::nwords(s)];
+                            words[0] = x;
+                            alpha::tt_words(s, words)
+                        };
+                        let fs = if w % 2 == 0 { vec![mk1(w)] } else { vec![mk1(w), mk1(w >> 1)] };
+                        t.push(format!("{} n={} list [{}]", if st { "LutN" } else { "Lut" }, s, fs.iter().map(|f| fmt_words(&f.w)).collect::<Vec<_>>().join(",")), move || check_ty(st, s, &fs));
+                    }
+                }
+            }
+        }
+        _ => return Err(format!("unknown tour family {}", which)),
+    }
+    Ok(t)
+}
+
+fn histories(run: &Run) {
+    let th = run.thorough();
+    super::xsize::run_tours(run, "C07", "sizes (a batch of lists per size, every ordered pair of sizes consecutively)", "sizes 0..=10 (thorough 11); per size the empty list and 15 lists of 1, 2 and 4 tables over 5 tables; both types; the count must not depend on what was analysed before on the thread", tour_sizes(th).len(), &|k| tour("sizes", k, th).unwrap());
+    super::xsize::run_tours(run, "C07", "words (the same table words as lists of tables of consecutive sizes)", "all 256 words of 3-variable tables as tables of every size 0..=8 they fit (odd words: a two-element list with the word shifted); every ordered pair of sizes; both types", 256 / WORDS_PER_TOUR, &|k| tour("words", k, th).unwrap());
+}
+
 pub fn run(run: &Run) {
     if let Err(e) = bdd::self_check() {
         run.machinery(format!("robdd model self-check: {}", e));
@@ -243,10 +319,15 @@ pub fn run(run: &Run) {
         word_sequences::<L>(run, st, n)
     }
     for n in 7..=9usize {
+        if n == 8 && run.profile == "checked" && !run.thorough() {
+            // the largest section; the second configuration keeps n = 7 and n = 9
+            continue;
+        }
         for st in [false, true] {
             for_type!(st, n, ws(run, st, n));
         }
     }
+    histories(run);
     let _ = for_static!(0, nop());
 }
 
